@@ -151,7 +151,8 @@ partial def Q.eval (d : Doc) : Q → Bool
   | .bad => false
   | .term f w =>
       if f == "t" then (match d.t with | some ws => ws.contains w | none => false)
-      else if f == "k" then d.k == some w else false
+      else if f == "k" then d.k == some w
+      else if f == "_id" then d.id == w else false
   | .prefix_ f p =>
       if f == "t" then (match d.t with | some ws => ws.any (·.startsWith p) | none => false)
       else if f == "k" then (match d.k with | some v => v.startsWith p | none => false) else false
@@ -332,10 +333,12 @@ def recipeStep (st : CaseSt) (op impl : String) : CaseSt × String :=
   let r := parseRecipe op
   let kind :=
     if r.isOffline then "offline" else if r.multi > 0 then "multisearch"
+    else if r.get "tailmerge" == "1" then "tail-merge"
     else if r.get "backup" == "1" then "backup" else if r.get "reopen" == "1" then "reopen"
     else if r.get "score" == "none" then "score-none" else if r.get "noopt" != "" then "noopt"
     else if r.get "merge" == "1" then "merge" else if r.get "ver" == "2" then "v2" else "plain"
   let brs := [kind] ++ (if r.merged then ["merged-segment"] else []) ++ (if r.del > 0 then ["pending-deletions"] else [])
+    ++ (if look r.phys "tail" == "true" then ["merge-behind-deletions"] else [])
     ++ (if st.docs.isEmpty then ["empty-corpus"] else []) ++ (if r.simple then ["exact-order"] else [])
   let br := " br=" ++ ",".intercalate brs
   -- the model's first section
@@ -364,7 +367,7 @@ def recipeStep (st : CaseSt) (op impl : String) : CaseSt × String :=
         | some (_, v, _) => (scKey, v)
         | none => (scKey, (implLook qn scKey).getD "?")
       -- the history probe: applicable when the harness holds a reader on the writer's current root
-      let histSec : (String × String) := ("hist", if !r.isOffline && r.get "reopen" != "1" then "ok" else "-")
+      let histSec : (String × String) := ("hist", if !r.isOffline && r.get "reopen" != "1" && r.get "tailmerge" != "1" then "ok" else "-")
       (qn, querySections st r p.2 ++ [scSec, histSec])
   let modelSecs := ("", head) :: qsecs
   let model := renderSections modelSecs
